@@ -7,6 +7,7 @@
 //! (c) pipeline oracle on the implementation for corpus and generated sources.
 mod astutil;
 mod docgen;
+mod frag;
 #[path = "../c18/inputs.rs"]
 #[allow(dead_code)]
 mod inputs;
@@ -470,6 +471,9 @@ fn main() {
     }
     if !opts.has_flag("--no-strings") {
         strings::part_strings(&mut ev, &mut model, &opts);
+    }
+    if !opts.has_flag("--no-frag") {
+        frag::part_frag(&mut ev, &mut model, &opts);
     }
     if !opts.has_flag("--no-pipeline") {
         part_pipeline(&mut ev, &opts);
